@@ -40,7 +40,22 @@ def dupStep (s : St) (f : List String) (impl : String) : LineOut St :=
     else none
   { state := s, model := some expect, monitor := m }
 
+/-- `uevalt`: two different user events (times `lt` and `lt + dist`) delivered alternately, lower first.  Each is
+re-queued on its first delivery only: a repeat is either a duplicate in its slot (`dist` below the buffer size) or
+too old (`dist` at least the buffer size, `EventBuf.tooOld`), never accepted again. -/
+def altStep (s : St) (f : List String) (impl : String) : LineOut St :=
+  let rounds := (f.getLast?.bind (·.toNat?)).getD 0
+  let expect := "growth " ++ ",".intercalate ((List.range (2 * rounds)).map fun i => if i < 2 then "1" else "0")
+  let got : List Nat := ((String.ofList (impl.toList.drop 7)).splitOn ",").filterMap (·.toNat?)
+  let total : Nat := got.foldl (· + ·) 0
+  let m : Option (String × String) :=
+    if !impl.startsWith "growth " then some ("malformed", impl)
+    else if total > 2 then some ("requeued-again", s!"two user events were re-queued {total} times over {2 * rounds} deliveries")
+    else none
+  { state := s, model := some expect, monitor := m }
+
 def step (s : St) (f : List String) (impl : String) : LineOut St :=
+  if f.head? == some "uevalt" then altStep s f impl else
   if f.head? == some "uevdup" || f.head? == some "qrydup" then dupStep s f impl else
   let (n', out, h) := modelLine s.base.node f
   match h with
